@@ -252,6 +252,10 @@ func (s *SIP) DecodeFromBytes(data []byte, df gopacket.DecodeFeedback) error {
 	var offset int
 	var eoh = false // track End Of Headers
 
+	// Start from the state NewSIP gives: a reused layer must not keep the headers,
+	// first-line fields, CSeq or Content-Length of an earlier packet.
+	*s = SIP{BaseLayer: s.BaseLayer, Headers: make(map[string][]string), contentLength: -1}
+
 	// Iterate on all lines of the SIP Headers
 	// and stop when we reach the SDP (aka when the new line
 	// is at index 0 of the remaining packet)
